@@ -323,6 +323,71 @@ def internal_trace(R, test_exe, n):
     R.add_cases(len(lines), multi, lines[-1:])
 
 
+def concurrent_send(R, test_exe, rounds, race=False):
+    """Two real link services with their own send goroutines; A's transport stalls in sendFrame while B sends."""
+    trace = os.path.join(R.work, "concurrent-send%s.trace" % ("-race" if race else ""))
+    exe = test_exe
+    if race:
+        exe = os.path.join(R.work, "facelp-race.test")
+        ok, log = vlib.go_test_build("facelp", exe, race=True)
+        if not ok:
+            R.notes.append("race-detector build of the face harness failed; concurrent-send part ran without it")
+            return
+    env = vlib.goenv()
+    env.update(VERIF_SEED=str(R.seed), VERIF_N=str(rounds), VERIF_OUT=trace)
+    rc, out = vlib.sh([exe, "-test.run", "TestConcurrentSend$", "-test.count=1", "-test.timeout=300s"], env=env, timeout=400)
+    lines = [l.strip() for l in open(trace, errors="replace")] if os.path.exists(trace) else []
+    if "DATA RACE" in out:
+        R.oracle_failure("frame-buffer-race", "race detector: two link services' send goroutines touch the same frame buffer",
+                         dict(output=out[-3000:], harness="facelp.test (-race) -test.run TestConcurrentSend"))
+    elif rc != 0:
+        R.oracle_failure("concurrent-send-crash", "the concurrent-send harness aborted", dict(output=out[-1500:]))
+    n = 0
+    for l in lines:
+        m = re.match(r"CS (\d+) a_ok=(\d) b_ok=(\d) a_has_b=(\d)", l)
+        if not m:
+            if l.startswith("CS"):
+                R.oracle_failure("concurrent-send-stuck", "a send goroutine did not reach its transport: " + l, dict(line=l))
+            continue
+        n += 1
+        if m.group(2) != "1" or m.group(3) != "1":
+            what = ("the transport of face A wrote the frame assembled for face B (a packet for the local face on the non-local wire)"
+                    if m.group(4) == "1" else "a transport wrote bytes that are not the frame assembled for its face")
+            R.oracle_failure("frame-of-other-face", what + ": the frame buffer is shared between link services whose send goroutines run concurrently",
+                             dict(line=l, harness="facelp.test -test.run TestConcurrentSend"))
+    R.coverage.setdefault("distribution", {})["concurrent_send_rounds" + ("_race" if race else "")] = n
+    R.add_cases(n, n, lines[:1])
+
+
+def tcp_lifetime(R, test_exe):
+    """A real on-demand UnicastTCPTransport whose stream lasts longer than faces.tcp.lifetime (1 s here)."""
+    trace = os.path.join(R.work, "tcp-lifetime.trace")
+    env = vlib.goenv()
+    env.update(VERIF_OUT=trace)
+    rc, out = vlib.sh([test_exe, "-test.run", "TestTcpLifetime$", "-test.count=1", "-test.timeout=120s"], env=env, timeout=200)
+    lines = [l.strip() for l in open(trace, errors="replace")] if os.path.exists(trace) else []
+    if rc != 0:
+        R.oracle_failure("tcp-lifetime-crash", "the TCP lifetime harness aborted", dict(output=out[-1500:]))
+        return
+    if any(l.startswith("TL unavailable") for l in lines):
+        R.notes.append("loopback TCP not available in this environment: the 'stream longer than the face lifetime' scenario was skipped")
+        return
+    n = 0
+    for l in lines:
+        m = re.match(r"TL t_ms=(\d+) frames=(\d+) period_ms=(-?\d+) running=(\d)", l)
+        if not m:
+            continue
+        n += 1
+        # each sample is taken 60 ms after a frame was written: the expiry must be (almost) a full lifetime away
+        if int(m.group(3)) < 500 or m.group(4) != "1":
+            R.oracle_failure("tcp-face-expires-mid-stream", "an on-demand TCP face that keeps receiving frames is %d ms from expiry (lifetime 1000 ms) %s ms into the "
+                             "stream: the expiry was not moved by the frames received (Table.ExpirationHandler closes it mid-stream)" % (int(m.group(3)), m.group(1)),
+                             dict(lines=lines, harness="facelp.test -test.run TestTcpLifetime"))
+            break
+    R.coverage.setdefault("distribution", {})["tcp_lifetime_samples"] = n
+    R.add_cases(1, 1 if n >= 5 else 0, lines[-1:])
+
+
 def load_cases(trace):
     cases, cur, cid = {}, [], None
     for line in open(trace, errors="replace"):
